@@ -196,3 +196,61 @@ func canaryGoLoop(p *Header, n int, ch chan bool) uint8 {
 	}
 	return v
 }
+
+func canaryDeferOrder(p *Header) {
+	defer func() { p.Version = 1 }()
+	defer func() { p.Version = 2 }()
+}
+
+func canaryStringBytes(s string) byte {
+	b := []byte(s)
+	b[0] = 'x'
+	return s[0]
+}
+
+func canaryWrap8(a uint8) uint8 {
+	return a + 100
+}
+
+func canaryNilMapRead() bool {
+	var m map[int]bool
+	return m[3]
+}
+
+func canaryDistinctAllocs() bool {
+	a, b := new(Header), new(Header)
+	a.Version = 1
+	return a != b && b.Version == 0
+}
+
+func canaryUnknownAlias(p *Header, f func(*Header) *Header) {
+	q := f(p)
+	p.Version = 0
+	if q != nil {
+		q.Version = 1
+	}
+}
+
+func canaryRetHelper(p *Header) *Header { return p }
+
+func canaryRetAlias(p *Header) {
+	q := canaryRetHelper(p)
+	p.Version = 0
+	if q != nil {
+		q.Version = 1
+	}
+}
+
+func canarySwitchFall(x int) int {
+	r := 0
+	switch x {
+	case 1:
+		r = 1
+		fallthrough
+	case 2:
+		r += 10
+	default:
+		r = 5
+	}
+	return r
+}
